@@ -57,6 +57,15 @@ CLAIMS.update({
                 note=RT_NOTE, technique="Lean 4 proof (version strictly monotone per removal; prefix stability between removals) + differential correspondence", ref="§6 C09"),
 })
 
+CLAIMS.update({
+    "C10": dict(text="Theorems: for every operation (arbitrary closures and handles) on an invariant world, whatever the outcome — return or panic — the carried world satisfies the invariant (each entity whole or absent: dense/sparse bijection, all columns of length len), same schema, storages related by atomic steps; never UB; run continues after every panic and the invariant holds after arbitrary further use; the overflow panics of destroy, the capacity overflow of create and with_capacity beyond the limit leave the state UNCHANGED; closure panics in iter/iter_destroy/find keep the invariant; regression witness: with the ORIGINAL statement order of force_destroy (defect F1, repaired) an overflow panic violates the invariant. Tie: fault sweep in harness/rt — k-th closure call of each macro, k-th Clone::clone, k-th Drop::drop (world drop and destroyed tuple), counters preset to the 2^32 boundary then destroy by every key kind and iter_destroy, borrow conflicts — each followed by dump+invariant, rows, probes, continued use and an end-of-sequence registry balance (leaks predicted exactly).",
+                note=RT_NOTE + " Cannot be exhibited by the model: unwinding through real stack frames, allocation failure, the Layout overflow panic inside DataPtr::grow.", technique="Lean 4 proof (per-operation, per-panic-point invariant preservation) + fault enumeration against the real code", ref="§6 C10"),
+    "C12": dict(text="Theorems for symbolic maxCap (value 2^24 from the translator): len = number of live entities (Nodup dense handles), is_empty agrees, len <= capacity <= maxCap, capacity monotone along every history, with_capacity(n) succeeds iff n <= maxCap and then n create_within_capacity succeed without growing, create_within_capacity succeeds iff len < capacity (capacity unchanged, else state unchanged), create succeeds whenever len < maxCap under any admissible growth (the code's own formula is admissible), at the limit it panics with the state unchanged, after ANY history exactly capacity - len further create_within_capacity succeed (every freed position reusable) and the next is refused. Tie: len/capacity/version in every observation, refill-to-capacity probes, invariant evaluated on dumps of the implementation's slot array.",
+                note=RT_NOTE + " The real 2^24 boundary is exercised on the implementation alone in the thorough tier (the list model is not run at 2^24 elements).", technique="Lean 4 proof (free-chain length invariant) + differential correspondence + invariant on implementation dumps", ref="§6 C12"),
+    "C19": dict(text="Theorems: events only adds logs (erasing the logs commutes with every storage operation, stepOp and run, for arbitrary closures/handles); wrapping_version changes nothing until a generation at vmax is released (run-level equality on overflow-free histories) and beyond that keeps the invariant and never reaches UB (documented reuse exhibited by a witness); debug assertions change nothing for in-range keys and issued keys never trip them, the only difference for forged out-of-range keys is a clean panic vs None; the invariant and all theorems are arity-generic. The feature list and storage arities come from the translator. Tie: the rt streams re-run under 6 (quick) / 16 (thorough) configurations against the model with the matching Cfg, plus implementation-vs-implementation replay of the same operation lists across configurations differing in exactly one feature or the profile.",
+                note=RT_NOTE, technique="Lean 4 proof (parametricity in Cfg, simulation lifted to run) + cross-configuration differential replay", ref="§6 C19"),
+})
+
 NOT_YET = {}
 
 ALL = ["C%02d" % i for i in range(1, 20)]
